@@ -255,32 +255,32 @@ theorem hasPrefix_hash1_of_hash2 {l : Str} (h : hasPrefix sHash2 l = true) : has
 
 theorem joinSep_cons2 (sep : Char) (a b : Str) (r : List Str) : joinSep sep (a :: b :: r) = a ++ sep :: joinSep sep (b :: r) := rfl
 
-/-! ### wrapSeq -/
+/-! ### the FASTA loop of Build, for any line-break test -/
 
-theorem wrapSeq_filter (re : Int) : ∀ (i : Nat) (s : Str), '\n' ∉ s → (wrapSeq re i s).filter (fun c => c != '\n') = s
+theorem wrapWith_filter (brk : Nat → Bool) : ∀ (i : Nat) (s : Str), '\n' ∉ s → (wrapWith brk i s).filter (fun c => c != '\n') = s
   | _, [], _ => rfl
   | i, c :: cs, h => by
     have hc : c ≠ '\n' := fun e => h (by simp [e])
-    have ih := wrapSeq_filter re (i + 1) cs (fun m => h (by simp [m]))
-    simp only [wrapSeq]
+    have ih := wrapWith_filter brk (i + 1) cs (fun m => h (by simp [m]))
+    simp only [wrapWith]
     split <;> simp [hc, ih]
 
-theorem wrapSeq_mem (re : Int) : ∀ (i : Nat) (s : Str), ∀ c ∈ wrapSeq re i s, c ∈ s ∨ c = '\n'
-  | _, [], c, h => by simp [wrapSeq] at h
+theorem wrapWith_mem (brk : Nat → Bool) : ∀ (i : Nat) (s : Str), ∀ c ∈ wrapWith brk i s, c ∈ s ∨ c = '\n'
+  | _, [], c, h => by simp [wrapWith] at h
   | i, x :: xs, c, h => by
-    simp only [wrapSeq] at h
+    simp only [wrapWith] at h
     split at h
     · simp only [List.mem_cons] at h
       rcases h with rfl | rfl | h
       · simp
       · simp
-      · rcases wrapSeq_mem re (i + 1) xs c h with h | h
+      · rcases wrapWith_mem brk (i + 1) xs c h with h | h
         · exact Or.inl (List.mem_cons_of_mem _ h)
         · exact Or.inr h
     · simp only [List.mem_cons] at h
       rcases h with rfl | h
       · simp
-      · rcases wrapSeq_mem re (i + 1) xs c h with h | h
+      · rcases wrapWith_mem brk (i + 1) xs c h with h | h
         · exact Or.inl (List.mem_cons_of_mem _ h)
         · exact Or.inr h
 
